@@ -5,7 +5,9 @@ use jiff::{civil::DateTime, fmt::strtime, tz, Timestamp};
 /// Convert a UNIX epoch timestamp with optional fractions.
 fn epoch_to_timestamp<V: ValT>(v: &V) -> Result<Timestamp, Error<V>> {
     let val = match v.as_isize() {
-        Some(i) => i as i64 * 1000000,
+        Some(i) => (i as i64)
+            .checked_mul(1000000)
+            .ok_or_else(|| Error::str(format_args!("cannot convert {v} to time")))?,
         None => (v.try_as_f64()? * 1000000.0) as i64,
     };
     Timestamp::from_microsecond(val).map_err(Error::str)
